@@ -298,11 +298,12 @@ func Judge(m *Model, r *Result, partial bool) []Verdict {
 		return vs
 	}
 	if r.Panic != "" {
-		k := "?"
 		if r.PanicOp >= 0 && r.PanicOp < len(r.Prog.Ops) {
-			k = r.Prog.Ops[r.PanicOp].K
+			k := r.Prog.Ops[r.PanicOp].K
+			add("panic op="+k, "operation %d (%s) panicked: %s", r.PanicOp, k, r.Panic)
+		} else {
+			add("panic after-handler", "flushResponse / release panicked %s", r.Panic)
 		}
-		add("panic op="+k, "operation %d (%s) panicked: %s", r.PanicOp, k, r.Panic)
 		return vs
 	}
 	if !r.HandlerRan {
